@@ -366,7 +366,43 @@ pub const AISLE_UNIT_FILES: &[&str] = &[
     "[c]\n\u{a0}",
 ];
 
+/// A large structured file: many categories, long synonym lists, long names, so that the
+/// written output crosses typical buffer sizes (4 KiB, 8 KiB) and counters reach two digits.
+pub fn aisle_large(r: &mut Rng) -> String {
+    let mut s = String::new();
+    let ncat = *r.pick(&[3usize, 12, 40, 130, 300]);
+    let long = r.chance(1, 3);
+    let mut id = 0usize;
+    for c in 0..ncat {
+        s.push_str(&format!("[cat {c}]\n"));
+        let nl = if r.chance(1, 6) { 0 } else { r.range(1, 5) };
+        for _ in 0..nl {
+            let ns = *r.pick(&[1usize, 1, 2, 3, 5, 17]);
+            for j in 0..ns {
+                if j > 0 {
+                    s.push('|');
+                }
+                id += 1;
+                s.push_str(&format!("item {id}"));
+                if long && r.chance(1, 8) {
+                    for _ in 0..r.range(20, 300) {
+                        s.push('x');
+                    }
+                }
+            }
+            s.push('\n');
+        }
+        if r.chance(1, 3) {
+            s.push('\n');
+        }
+    }
+    s
+}
+
 pub fn aisle_file(r: &mut Rng) -> String {
+    if r.chance(1, 40) {
+        return aisle_large(r);
+    }
     match r.below(10) {
         0 => r.pick(AISLE_UNIT_FILES).to_string(),
         1..=3 => aisle_soup(r),
